@@ -87,7 +87,12 @@ def run(ctx):
             ctx.fail(case, "left/right traps do not partition the trap zone")
         caps_ok(ctx, sp, case)
         ctx.count("twocol")
-    gemini(ctx, base_spec.get_base_spec(), logical.get_spec(), reqs, impls, metas)
+    fresh_results(ctx, single_col_zone, two_col_zone, old_spec, base_spec, logical)
+    try:
+        gemini(ctx, base_spec.get_base_spec(), logical.get_spec(), reqs, impls, metas)
+    except (KeyError, AttributeError, ValueError, IndexError) as ex:
+        ctx.fail({"builder": "gemini", "history": "after earlier results were modified by their caller"},
+                 f"Gemini builder output is malformed ({type(ex).__name__}: {ex})")
     model = ctx.driver(reqs)
     ctx.traces_validated = len(reqs)
     for case, i, m in zip(metas, impls, model):
@@ -98,6 +103,55 @@ def run(ctx):
     for k in (0, len(reqs) // 2, len(reqs) - 1):
         ctx.sample({"request": reqs[k], "impl": impls[k][:300], "model": model[k][:300]})
     ctx.exhaustive = True
+
+
+def scribble(s):
+    """mutate everything mutable that a builder result exposes"""
+    s.float_constants["gate_spacing"] = 3.0
+    s.float_constants["verif_extra"] = 1.0
+    s.int_constants["code_size"] = 99
+    l = s.layout
+    l.static_traps["verif_extra"] = next(iter(l.static_traps.values())).shift(1000.0, 0.0)
+    l.special_grid.clear()
+    l.fillable.add("verif_extra")
+    l.has_cz.clear()
+    l.has_local.add("verif_extra")
+
+
+def fresh_results(ctx, single_col_zone, two_col_zone, old_spec, base_spec, logical):
+    """A builder's output must not depend on what a caller did to an earlier output:
+    call, scribble over the result, call again, compare with the first answer."""
+    builders = [("single_col_zone.get_spec(3,2)", lambda: single_col_zone.get_spec(3, 2)),
+                ("two_col_zone.get_spec(3,2)", lambda: two_col_zone.get_spec(3, 2)),
+                ("stdlib.spec.single_zone_spec(3,2)", lambda: old_spec.single_zone_spec(3, 2)),
+                ("gemini.get_base_spec()", base_spec.get_base_spec),
+                ("gemini.logical.get_spec()", logical.get_spec)]
+    for name, b in builders:
+        try:
+            first = b()
+            want = canon_spec(first)
+        except Exception as ex:  # noqa: BLE001
+            ctx.fail({"builder": name, "history": "after results of other builders were modified by their caller"},
+                     f"{name} fails after an earlier builder result was modified ({type(ex).__name__}: {ex})")
+            continue
+        scribble(first)
+        for rnd in (2, 3):
+            try:
+                again = b()
+                canon_spec(again)
+            except Exception as ex:  # noqa: BLE001
+                ctx.fail({"builder": name, "history": "call, mutate the returned spec, call again"},
+                         f"{name} fails after an earlier result was modified ({type(ex).__name__})")
+                break
+            ctx.count("rebuilds")
+            ctx.seen(("rebuild", name, rnd), True)
+            if canon_spec(again) != want:
+                ctx.fail({"builder": name, "history": "call, mutate the returned spec, call again"},
+                         f"{name} returns a different spec after an earlier result was modified")
+                break
+            scribble(again)
+        # undo the damage for cached builders (none today): a later check must see a clean state
+    return
 
 
 def gemini(ctx, base, logi, reqs, impls, metas):
